@@ -3,8 +3,10 @@ package c16
 import (
 	"bytes"
 	"fmt"
+	"io"
 	"os"
 	"testing"
+	"testing/iotest"
 
 	"github.com/brutella/hc/util"
 	"pgregory.net/rapid"
@@ -131,6 +133,11 @@ func checkWriter(ops []setOp) error {
 	if err != nil {
 		return fmt.Errorf("hc cannot parse its own serialisation: %v", err)
 	}
+	// (1b) the serialisation reaches the parser the way a network delivers it: in pieces. An io.Reader may
+	// return fewer bytes than asked for at any point; the result must not depend on where the pieces end.
+	if err := chunkedParses(wire, back.BytesBuffer().Bytes()); err != nil {
+		return err
+	}
 	for t := 0; t < 256; t++ {
 		tag := byte(t)
 		want := model[tag]
@@ -176,6 +183,52 @@ func checkWriter(ops []setOp) error {
 	}
 	if !sameItems(got, expectedLogical(ops, false)) && !sameItems(got, expectedLogical(ops, true)) {
 		return fmt.Errorf("standard parser reassembles %s, expected %s", describe(got), describe(expectedLogical(ops, false)))
+	}
+	return nil
+}
+
+// chunkedParses parses wire through readers that deliver it in pieces and compares each result with the
+// re-serialisation of the parse from one piece.
+func chunkedParses(wire, whole []byte) error {
+	try := func(what string, r io.Reader) error {
+		c, err := util.NewTLV8ContainerFromReader(r)
+		if err != nil {
+			return fmt.Errorf("valid serialisation (%d bytes) delivered %s is rejected: %v", len(wire), what, err)
+		}
+		if got := c.BytesBuffer().Bytes(); !bytes.Equal(got, whole) {
+			return fmt.Errorf("valid serialisation (%d bytes) delivered %s parses to different content (first difference at %d)", len(wire), what, firstDiff(got, whole))
+		}
+		return nil
+	}
+	if err := try("one byte per Read", iotest.OneByteReader(bytes.NewReader(wire))); err != nil {
+		return err
+	}
+	if err := try("in halving reads", iotest.HalfReader(bytes.NewReader(wire))); err != nil {
+		return err
+	}
+	if err := try("with the last bytes together with io.EOF", iotest.DataErrReader(bytes.NewReader(wire))); err != nil {
+		return err
+	}
+	// two pieces, cut at every position for short inputs and around every item header for long ones
+	var cuts []int
+	if len(wire) <= 300 {
+		for k := 1; k < len(wire); k++ {
+			cuts = append(cuts, k)
+		}
+	} else {
+		pos := 0
+		for pos+2 <= len(wire) {
+			cuts = append(cuts, pos+1, pos+2)
+			pos += 2 + int(wire[pos+1])
+		}
+	}
+	for _, k := range cuts {
+		if k <= 0 || k >= len(wire) {
+			continue
+		}
+		if err := try(fmt.Sprintf("in two pieces cut after byte %d", k), io.MultiReader(bytes.NewReader(wire[:k]), bytes.NewReader(wire[k:]))); err != nil {
+			return err
+		}
 	}
 	return nil
 }
